@@ -13,7 +13,8 @@ def _ind(text):
 
 
 SPLIT = '    header_data, _, body = data.partition(b"\\r\\n\\r\\n")\n    first_line, _, header_data = header_data.partition(b"\\r\\n")\n'
-HLOOP = '    headers = {}\n    for header in header_data.split(b"\\r\\n"):\n        key, _, value = header.partition(b": ")\n        headers[key] = value\n'
+SKIP = '        if not header:\n            # a message without header lines has an empty header block, not a header with an empty name\n            continue\n'
+HLOOP = '    headers = {}\n    for header in header_data.split(b"\\r\\n"):\n' + SKIP + '        key, _, value = header.partition(b": ")\n        headers[key] = value\n'
 RESP = (
     '    if first_line.upper().startswith(b"HTTP/"):\n'
     '        parts = first_line.rstrip().split()\n'
@@ -29,7 +30,9 @@ REQ_HEAD = (
     '        raise ValueError(f"Error in parsing request status line: {first_line!r}")\n'
     '    method, uri, _version = parts\n'
 )
-URI = '    uri = uri.decode("ascii", errors="ignore").encode()\n    result = urlparse(uri)\n    uri = result.path\n'
+IMPORT = "from urllib.parse import parse_qsl, urlsplit"
+PARSE = '    # `urlsplit()` and not `urlparse()`: the latter cuts `;parameters` off the last path segment\n    result = urlsplit(uri)\n'
+URI = '    uri = uri.decode("ascii", errors="ignore").encode()\n' + PARSE + '    uri = result.path\n'
 QUERY = '    query = parse_qsl(result.query.decode("ascii"), encoding="latin-1")\n    params = {key.encode("latin-1"): value.encode("latin-1") for key, value in query}\n'
 REQ_RET = '    return HttpRequest(method=method, body=body, headers=headers, uri=uri, params=params)\n'
 
@@ -75,13 +78,13 @@ T("C16", "twin-single-exit", F, "", "", edits=[
     (F, REQ_RET, '        message = HttpRequest(method=method, body=body, headers=headers, uri=uri, params=params)\n    return message\n'),
 ])
 # header map: dict() over a generator of (key, value) pairs
-T("C16", "twin-headers-dict-genexp", F, HLOOP, '    headers = dict(line.partition(b": ")[::2] for line in header_data.split(b"\\r\\n"))\n')
+T("C16", "twin-headers-dict-genexp", F, HLOOP, '    headers = dict(line.partition(b": ")[::2] for line in header_data.split(b"\\r\\n") if line)\n')
 # header map: dict comprehension over a generator of partition triples
-T("C16", "twin-headers-dictcomp", F, HLOOP, '    triples = (line.partition(b": ") for line in header_data.split(b"\\r\\n"))\n    headers = {k: v for k, _sep, v in triples}\n')
+T("C16", "twin-headers-dictcomp", F, HLOOP, '    triples = (line.partition(b": ") for line in header_data.split(b"\\r\\n") if len(line) > 0)\n    headers = {k: v for k, _sep, v in triples}\n')
 # header map: list of pairs, then dict()
-T("C16", "twin-headers-pairs-list", F, HLOOP, '    lines = header_data.split(b"\\r\\n")\n    pairs = [(h.partition(b": ")[0], h.partition(b": ")[2]) for h in lines]\n    headers = dict(pairs)\n')
+T("C16", "twin-headers-pairs-list", F, HLOOP, '    lines = header_data.split(b"\\r\\n") if header_data else []\n    pairs = [(h.partition(b": ")[0], h.partition(b": ")[2]) for h in lines]\n    headers = dict(pairs)\n')
 # header loop with indexing instead of unpacking and dict() for the empty map
-T("C16", "twin-headers-loop-indexed", F, HLOOP, '    headers = dict()\n    for header in header_data.split(b"\\r\\n"):\n        kv = header.partition(b": ")\n        headers[kv[0]] = kv[-1]\n')
+T("C16", "twin-headers-loop-indexed", F, HLOOP, '    headers = dict()\n    for header in header_data.split(b"\\r\\n"):\n        kv = header.partition(b": ")\n        if header != b"":\n            headers[kv[0]] = kv[-1]\n')
 # helpers + module constants (inlined / folded by the normaliser)
 T("C16", "twin-helpers-constants", F, "", "", edits=[
     (F, "def parse_raw_http(data: bytes)",
@@ -93,9 +96,9 @@ T("C16", "twin-helpers-constants", F, "", "", edits=[
      '        _version, status, reason = _tokens(first_line, "response")\n'),
     (F, REQ_HEAD, '    method, uri, _version = _tokens(first_line, "request")\n'),
 ])
-# urlparse on text, parameter map filled in a loop, positional constructor arguments
-T("C16", "twin-urlparse-str-params-loop", F, "", "", edits=[
-    (F, URI, '    parsed = urlparse(uri.decode("ascii", errors="ignore"))\n'),
+# urlsplit on text, parameter map filled in a loop, positional constructor arguments
+T("C16", "twin-urlsplit-str-params-loop", F, "", "", edits=[
+    (F, URI, '    parsed = urlsplit(uri.decode("ascii", errors="ignore"))\n'),
     (F, QUERY, '    params: Dict[bytes, bytes] = {}\n    for name, val in parse_qsl(parsed.query, encoding="latin-1"):\n        params[name.encode("latin-1")] = val.encode("latin-1")\n'),
     (F, REQ_RET, '    return HttpRequest(method, parsed.path.encode("ascii"), params, headers, body)\n'),
 ])
@@ -115,7 +118,7 @@ T("C16", "twin-length-test-walrus", F, '    parts = first_line.rstrip().split()\
 # header loop moved into a helper, annotated empty map
 T("C16", "twin-headers-helper-loop", F, "", "", edits=[
     (F, "def parse_raw_http(data: bytes)",
-     'def _header_map(block: bytes) -> Dict[bytes, bytes]:\n    out: Dict[bytes, bytes] = {}\n    for line in block.split(b"\\r\\n"):\n        name, _, text = line.partition(b": ")\n        out[name] = text\n    return out\n\n\n'
+     'def _header_map(block: bytes) -> Dict[bytes, bytes]:\n    out: Dict[bytes, bytes] = {}\n    for line in block.split(b"\\r\\n"):\n        if len(line) == 0:\n            continue\n        name, _, text = line.partition(b": ")\n        out[name] = text\n    return out\n\n\n'
      "def parse_raw_http(data: bytes)"),
     (F, HLOOP, '    headers = _header_map(header_data)\n'),
 ])
@@ -186,10 +189,6 @@ M("C16", "hoisted-status-is-first-token", F, "", "", "C16.R3", edits=[
     (F, REQ_HEAD, HOISTED.replace("    else:\n        method, uri, _version = parts\n", "    method, uri, _version = parts\n").replace("_version, status, reason = parts", "status, _version, reason = parts")),
 ])
 M("C16", "uri-lowercased", F, '    uri = result.path\n', '    uri = result.path.lower()\n', "C16.R3")
-M("C16", "uri-urlsplit", F, "", "", "C16.R3", edits=[
-    (F, "from urllib.parse import parse_qsl, urlparse", "from urllib.parse import parse_qsl, urlparse, urlsplit"),
-    (F, '    result = urlparse(uri)\n', '    result = urlsplit(uri)\n'),
-])
 M("C16", "params-from-fragment", F, 'parse_qsl(result.query.decode("ascii"), encoding="latin-1")', 'parse_qsl(result.fragment.decode("ascii"), encoding="latin-1")', "C16.R3")
 M("C16", "params-keys-lowercased", F, '{key.encode("latin-1"): value.encode("latin-1") for key, value in query}', '{key.lower().encode("latin-1"): value.encode("latin-1") for key, value in query}', "C16.R3")
 M("C16", "params-loop-swapped", F, QUERY, '    params = {}\n    for name, val in parse_qsl(result.query.decode("ascii"), encoding="latin-1"):\n        params[val.encode("latin-1")] = name.encode("latin-1")\n', "C16.R3")
@@ -205,9 +204,9 @@ M("C16", "flag-negated", F, "", "", "C16.R4", edits=[
 ])
 M("C16", "returns-tuple", F, REQ_RET, '    return (method, uri, params, headers, body)\n', "C16.R")
 # R5 (on refactored shapes)
-M("C16", "genexp-headers-colon-only", F, HLOOP, '    headers = dict(line.partition(b":")[::2] for line in header_data.split(b"\\r\\n"))\n', "C16.R5")
-M("C16", "genexp-headers-swapped", F, HLOOP, '    headers = dict(line.partition(b": ")[::-2] for line in header_data.split(b"\\r\\n"))\n', "C16.R5")
-M("C16", "dictcomp-headers-rpartition", F, HLOOP, '    headers = {k: v for k, _sep, v in (line.rpartition(b": ") for line in header_data.split(b"\\r\\n"))}\n', "C16.R5")
+M("C16", "genexp-headers-colon-only", F, HLOOP, '    headers = dict(line.partition(b":")[::2] for line in header_data.split(b"\\r\\n") if line)\n', "C16.R5")
+M("C16", "genexp-headers-swapped", F, HLOOP, '    headers = dict(line.partition(b": ")[::-2] for line in header_data.split(b"\\r\\n") if line)\n', "C16.R5")
+M("C16", "dictcomp-headers-rpartition", F, HLOOP, '    headers = {k: v for k, _sep, v in (line.rpartition(b": ") for line in header_data.split(b"\\r\\n") if line)}\n', "C16.R5")
 M("C16", "headers-value-stripped", F, '        headers[key] = value\n', '        headers[key] = value.strip()\n', "C16.R5")
 M("C16", "headers-keys-lowercased", F, '        headers[key] = value\n', '        headers[key.lower()] = value\n', "C16.R5")
 M("C16", "headers-prefilled", F, '    headers = {}\n', '    headers = {b"Content-Length": b"0"}\n', "C16.R5")
@@ -244,4 +243,105 @@ T("C16", "twin-prefix-not-in-singleton", F, "", "", edits=[
     (F, URI, _ind(URI)),
     (F, QUERY, _ind(QUERY)),
     (F, REQ_RET, _ind(REQ_RET) + RESP.replace('    if first_line.upper().startswith(b"HTTP/"):\n', "").replace("\n        ", "\n    ").replace("        parts", "    parts", 1)),
+])
+
+# ============================================================================================ wave 3: R9 and R10
+# (written against the repaired source: the header loop skips empty lines, the target is split with urlsplit)
+KV = '        key, _, value = header.partition(b": ")\n        headers[key] = value\n'
+FOR = '    for header in header_data.split(b"\\r\\n"):\n'
+
+# ---- R9: a message without header lines gets the empty header map
+# exact reversal of the repair
+M("C16", "headers-empty-line-not-skipped", F, SKIP, "", "C16.R9")
+# other ways to get it wrong: a guard that is always true for the one empty piece of split(sep)
+M("C16", "headers-guard-on-piece-list", F, HLOOP, '    headers = {}\n    lines = header_data.split(b"\\r\\n")\n    if lines:\n        for header in lines:\n' + _ind(KV), "C16.R9")
+M("C16", "headers-skip-none-only", F, SKIP, '        if header is None:\n            continue\n', "C16.R9")
+M("C16", "headers-skip-inverted", F, SKIP, '        if len(header) > 0:\n            pass\n', "C16.R9")
+M("C16", "headers-skip-bare-crlf-only", F, SKIP, '        if header == b"\\r\\n":\n            continue\n', "C16.R9")
+M("C16", "headers-comprehension-filter-not-none", F, HLOOP, '    headers = {h.partition(b": ")[0]: h.partition(b": ")[2] for h in header_data.split(b"\\r\\n") if h is not None}\n', "C16.R9")
+M("C16", "headers-genexp-unfiltered", F, HLOOP, '    headers = dict(line.partition(b": ")[::2] for line in header_data.split(b"\\r\\n"))\n', "C16.R9")
+M("C16", "headers-guard-on-whole-message", F, HLOOP, '    headers = {}\n    if data:\n' + _ind(FOR) + _ind(KV), "C16.R9")
+M("C16", "headers-skip-in-helper-dropped", F, "", "", "C16.R9", edits=[
+    (F, "def parse_raw_http(data: bytes)",
+     'def _header_map(block: bytes) -> Dict[bytes, bytes]:\n    out: Dict[bytes, bytes] = {}\n    for line in block.split(b"\\r\\n"):\n        name, _, text = line.partition(b": ")\n        out[name] = text\n    return out\n\n\n'
+     "def parse_raw_http(data: bytes)"),
+    (F, HLOOP, '    headers = _header_map(header_data)\n'),
+])
+# twins: other correct spellings of the repair
+T("C16", "twin-headers-store-under-if-line", F, SKIP + KV, '        if header:\n' + _ind(KV))
+T("C16", "twin-headers-guard-around-loop", F, HLOOP, '    headers = {}\n    if header_data:\n' + _ind(FOR) + _ind(KV))
+T("C16", "twin-headers-guard-around-loop-len", F, HLOOP, '    headers = {}\n    if len(header_data) != 0:\n' + _ind(FOR) + _ind(KV))
+T("C16", "twin-headers-filter-none", F, FOR + SKIP, '    for header in filter(None, header_data.split(b"\\r\\n")):\n')
+T("C16", "twin-headers-skip-len-zero", F, SKIP, '        if len(header) == 0:\n            continue\n')
+T("C16", "twin-headers-skip-eq-empty-mirrored", F, SKIP, '        if b"" == header:\n            continue\n')
+T("C16", "twin-headers-skip-blank", F, SKIP, '        if not header.strip():\n            continue\n')
+T("C16", "twin-headers-comprehension-ifexp-empty", F, HLOOP,
+  '    headers = {h.partition(b": ")[0]: h.partition(b": ")[2] for h in header_data.split(b"\\r\\n")} if header_data else {}\n')
+T("C16", "twin-headers-two-branches", F, HLOOP,
+  '    if not header_data:\n        headers = {}\n    else:\n        headers = {h.partition(b": ")[0]: h.partition(b": ")[2] for h in header_data.split(b"\\r\\n")}\n')
+T("C16", "twin-headers-list-filtered-first", F, FOR + SKIP, '    lines = [l for l in header_data.split(b"\\r\\n") if l]\n    for header in lines:\n')
+# property-preserving (they differ from the repaired code only on lines that are not of the `Key: value` form, which the
+# quantifier does not contain): lines without the separator are skipped
+T("C16", "twin-headers-skip-no-separator", F, SKIP, '        if b": " not in header:\n            continue\n')
+T("C16", "twin-headers-store-if-separator-found", F, SKIP + KV, '        key, sep, value = header.partition(b": ")\n        if sep:\n            headers[key] = value\n')
+T("C16", "twin-headers-split-once-two-pieces", F, SKIP + KV, '        kv = header.split(b": ", 1)\n        if len(kv) == 2:\n            headers[kv[0]] = kv[1]\n')
+T("C16", "twin-headers-find-guard", F, SKIP + KV, '        at = header.find(b": ")\n        if at < 0:\n            continue\n        headers[header[:at]] = header[at + 2:]\n')
+
+# ---- R10: the request path is the complete path component of the target
+# exact reversal of the repair
+M("C16", "uri-path-of-urlparse", F, "", "", "C16.R10", edits=[
+    (F, IMPORT, "from urllib.parse import parse_qsl, urlparse"),
+    (F, PARSE, '    result = urlparse(uri)\n'),
+])
+M("C16", "uri-path-of-urlparse-module-attribute", F, "", "", "C16.R10", edits=[
+    (F, IMPORT, "import urllib.parse\nfrom urllib.parse import parse_qsl"),
+    (F, PARSE, '    result = urllib.parse.urlparse(uri)\n'),
+])
+M("C16", "uri-path-of-urlparse-on-text", F, "", "", "C16.R10", edits=[
+    (F, IMPORT, "from urllib.parse import parse_qsl, urlparse"),
+    (F, URI, '    result = urlparse(uri.decode("ascii", errors="ignore"))\n    uri = result.path.encode("ascii")\n'),
+    (F, 'parse_qsl(result.query.decode("ascii"), encoding="latin-1")', 'parse_qsl(result.query, encoding="latin-1")'),
+])
+M("C16", "uri-path-of-urlparse-by-index", F, "", "", "C16.R10", edits=[
+    (F, IMPORT, "from urllib.parse import parse_qsl, urlparse"),
+    (F, PARSE + '    uri = result.path\n', '    result = urlparse(uri)\n    uri = result[2]\n'),
+])
+M("C16", "uri-urlparse-params-rejoined-in-one-branch-only", F, "", "", "C16.R10", edits=[
+    (F, IMPORT, "from urllib.parse import parse_qsl, urlparse"),
+    (F, PARSE + '    uri = result.path\n', '    result = urlparse(uri)\n    uri = result.path + b";" + result.params if method == b"GET" else result.path\n'),
+])
+# params put back without the `;`: no longer the path component at all (R3)
+M("C16", "uri-urlparse-params-appended-without-semicolon", F, "", "", "C16.R3", edits=[
+    (F, IMPORT, "from urllib.parse import parse_qsl, urlparse"),
+    (F, PARSE + '    uri = result.path\n', '    result = urlparse(uri)\n    uri = result.path + result.params\n'),
+])
+# path and query taken from different targets
+M("C16", "uri-cut-from-first-token", F, '    uri = result.path\n', '    uri = method.partition(b"?")[0]\n', "C16.R3")
+# the corpus.py entry `unquote-before-split` re-anchored to the repaired import line
+M("C16", "unquote-before-urlsplit", F, "", "", "C16.R7", edits=[
+    (F, IMPORT, "from urllib.parse import parse_qsl, unquote_to_bytes, urlsplit"),
+    (F, '    uri = uri.decode("ascii", errors="ignore").encode()', '    uri = unquote_to_bytes(uri).decode("ascii", errors="ignore").encode()'),
+])
+# twins: other correct spellings
+T("C16", "twin-uri-urlsplit-module-attribute", F, "", "", edits=[
+    (F, IMPORT, "import urllib.parse\nfrom urllib.parse import parse_qsl"),
+    (F, PARSE, '    result = urllib.parse.urlsplit(uri)\n'),
+])
+T("C16", "twin-uri-partition-at-question-mark", F, "", "", edits=[
+    (F, PARSE + '    uri = result.path\n', '    uri, _, query_string = uri.partition(b"?")\n'),
+    (F, 'parse_qsl(result.query.decode("ascii"), encoding="latin-1")', 'parse_qsl(query_string.decode("ascii"), encoding="latin-1")'),
+])
+T("C16", "twin-uri-split-once-at-question-mark", F, "", "", edits=[
+    (F, PARSE + '    uri = result.path\n', '    pieces = uri.split(b"?", 1)\n    uri = pieces[0]\n    query_string = pieces[1] if len(pieces) == 2 else b""\n'),
+    (F, 'parse_qsl(result.query.decode("ascii"), encoding="latin-1")', 'parse_qsl(query_string.decode("ascii"), encoding="latin-1")'),
+])
+T("C16", "twin-uri-path-by-cut-query-by-urlsplit", F, '    uri = result.path\n', '    uri = uri.partition(b"?")[0]\n')
+# urlparse with its `;params` put back (conditional expression / statement form)
+T("C16", "twin-uri-urlparse-params-rejoined", F, "", "", edits=[
+    (F, IMPORT, "from urllib.parse import parse_qsl, urlparse"),
+    (F, PARSE + '    uri = result.path\n', '    result = urlparse(uri)\n    uri = result.path + b";" + result.params if result.params else result.path\n'),
+])
+T("C16", "twin-uri-urlparse-params-rejoined-statement", F, "", "", edits=[
+    (F, IMPORT, "from urllib.parse import parse_qsl, urlparse"),
+    (F, PARSE + '    uri = result.path\n', '    result = urlparse(uri)\n    uri = result.path\n    if result.params != b"":\n        uri = b";".join((uri, result.params))\n'),
 ])
